@@ -33,16 +33,18 @@ Lemma skipn_repeat {A} (x : A) k t : skipn k (repeat x k ++ t) = t.
 Proof. induction k; cbn; [reflexivity|]. exact IHk. Qed.
 
 (* ------------------------------------------------------------------ the matcher *)
+Definition all_in (g : str) (l : str) : bool := forallb (fun x => has x g) l.
+
 Lemma star_aux_sound g k s n :
   star_aux g k s = Some n ->
-  exists j n', n = (j + n')%nat /\ (j <= length s)%nat /\ firstn j s = repeat g j /\ k (skipn j s) = Some n'.
+  exists j n', n = (j + n')%nat /\ (j <= length s)%nat /\ all_in g (firstn j s) = true /\ k (skipn j s) = Some n'.
 Proof.
   revert n. induction s as [|x s IH]; intros n H; cbn in H.
   - exists 0%nat, n. cbn. auto.
-  - destruct (byte_eqb x g) eqn:E.
+  - destruct (has x g) eqn:E.
     + destruct (star_aux g k s) as [m|] eqn:Es.
       * inversion H; subst n. destruct (IH m eq_refl) as (j & n' & -> & Hl & Hf & Hk).
-        exists (S j), n'. cbn. apply byte_eqb_eq in E. subst x. rewrite Hf. repeat split; auto; lia.
+        exists (S j), n'. cbn [firstn skipn length]. unfold all_in in *. cbn [forallb]. rewrite E, Hf. repeat split; auto; lia.
       * exists 0%nat, n. cbn. repeat split; auto; lia.
     + exists 0%nat, n. cbn. repeat split; auto; lia.
 Qed.
@@ -63,29 +65,30 @@ Proof.
       rewrite <- (firstn_skipn j s) at 1.
       rewrite firstn_app. rewrite firstn_length_le by lia.
       replace (j + n' - j)%nat with n' by lia.
-      rewrite firstn_all2 by (rewrite firstn_length_le; lia). rewrite Hf. now constructor.
+      rewrite firstn_all2 by (rewrite firstn_length_le; lia). now constructor.
 Qed.
 
 Lemma star_aux_not_none g k s : k s <> None -> star_aux g k s <> None.
 Proof.
-  destruct s as [|x s]; cbn; [auto|]. intros H. destruct (byte_eqb x g); [|exact H].
+  destruct s as [|x s]; cbn; [auto|]. intros H. destruct (has x g); [|exact H].
   destruct (star_aux g k s); [discriminate|exact H].
 Qed.
-Lemma star_aux_repeat g k j s : k s <> None -> star_aux g k (repeat g j ++ s) <> None.
+Lemma star_aux_gaps g k gs s : all_in g gs = true -> k s <> None -> star_aux g k (gs ++ s) <> None.
 Proof.
-  intros H. induction j as [|j IH]; cbn [repeat app].
+  intros Hg H. induction gs as [|x gs IH]; cbn [app].
   - now apply star_aux_not_none.
-  - cbn. rewrite byte_eqb_refl. destruct (star_aux g k (repeat g j ++ s)); [discriminate|contradiction].
+  - unfold all_in in Hg. cbn [forallb] in Hg. apply andb_prop in Hg. destruct Hg as [Hx Hg].
+    cbn. rewrite Hx. specialize (IH Hg). destruct (star_aux g k (gs ++ s)); [discriminate|contradiction].
 Qed.
 
 (* backtracking is complete: if some prefix of the input matches the word, the matcher reports a match *)
 Lemma m_items_complete its t : irel its t -> forall u, m_items its (t ++ u) <> None.
 Proof.
-  induction 1 as [|c r t _ IH|x r t Hx _ IH|g j r t _ IH]; intros u.
+  induction 1 as [|c r t _ IH|x r t Hx _ IH|g gs r t Hgs _ IH]; intros u.
   - cbn. discriminate.
   - cbn. rewrite byte_eqb_refl. specialize (IH u). destruct (m_items r (t ++ u)); [discriminate|contradiction].
   - cbn. apply byte_eqb_neq in Hx. rewrite Hx. specialize (IH u). destruct (m_items r (t ++ u)); [discriminate|contradiction].
-  - cbn [m_items]. rewrite <- app_assoc. apply star_aux_repeat. apply IH.
+  - cbn [m_items]. rewrite <- app_assoc. apply star_aux_gaps; [exact Hgs|apply IH].
 Qed.
 
 Lemma m_alts_sound alts s n : m_alts alts s = Some n -> exists a, In a alts /\ m_items a s = Some n.
@@ -158,20 +161,20 @@ Proof.
 Qed.
 
 (* ------------------------------------------------------------------ gap positions, bisect, frames *)
-Fixpoint cnt (g : byte) (s : str) (pos start i : Z) : Z :=
+Fixpoint cnt (g : str) (s : str) (pos start i : Z) : Z :=
   match s with
   | [] => 0
-  | x :: r => (if byte_eqb x g && (start <=? pos) && (pos <? i) then 1 else 0) + cnt g r (pos + 1) start i
+  | x :: r => (if has x g && (start <=? pos) && (pos <? i) then 1 else 0) + cnt g r (pos + 1) start i
   end.
 Lemma cnt_zero g s : forall pos start i, i <= pos -> cnt g s pos start i = 0.
 Proof.
   induction s as [|x s IH]; intros pos start i H; cbn [cnt]; [reflexivity|].
-  rewrite IH by lia. destruct (byte_eqb x g), (start <=? pos) eqn:E1, (pos <? i) eqn:E2; cbn; lia.
+  rewrite IH by lia. destruct (has x g), (start <=? pos) eqn:E1, (pos <? i) eqn:E2; cbn; lia.
 Qed.
 Lemma bisect_cnt g s : forall pos start i, bisect (gap_positions g s pos start) i = cnt g s pos start i.
 Proof.
   induction s as [|x s IH]; intros pos start i; cbn [gap_positions cnt]; [reflexivity|].
-  destruct (byte_eqb x g) eqn:Ex; cbn [andb app].
+  destruct (has x g) eqn:Ex; cbn [andb app].
   - destruct (start <=? pos) eqn:E1; cbn [andb app].
     + cbn [bisect]. destruct (pos <? i) eqn:E2.
       * rewrite IH. reflexivity.
@@ -180,9 +183,9 @@ Proof.
   - rewrite IH. lia.
 Qed.
 
-Definition countg (g : byte) (t : str) : Z := Z.of_nat (length (filter (fun c => byte_eqb c g) t)).
-Lemma countg_cons g x t : countg g (x :: t) = (if byte_eqb x g then 1 else 0) + countg g t.
-Proof. unfold countg. cbn [filter]. destruct (byte_eqb x g); cbn [length]; lia. Qed.
+Definition countg (g : str) (t : str) : Z := Z.of_nat (length (filter (fun c => has c g) t)).
+Lemma countg_cons g x t : countg g (x :: t) = (if has x g then 1 else 0) + countg g t.
+Proof. unfold countg. cbn [filter]. destruct (has x g); cbn [length]; lia. Qed.
 
 Lemma slice_nil b e : slice b e [] = [].
 Proof. unfold slice. rewrite skipn_nil. apply firstn_nil. Qed.
@@ -204,16 +207,16 @@ Proof.
     destruct (Z.to_nat (start - pos)) as [|lo] eqn:Elo; destruct (Z.to_nat (i - pos)) as [|hi] eqn:Ehi.
     + rewrite slice_empty.
       replace (Z.to_nat (start - (pos + 1))) with 0%nat by lia. replace (Z.to_nat (i - (pos + 1))) with 0%nat by lia.
-      rewrite slice_empty. destruct (byte_eqb x g), (start <=? pos) eqn:E1, (pos <? i) eqn:E2; cbn; lia.
+      rewrite slice_empty. destruct (has x g), (start <=? pos) eqn:E1, (pos <? i) eqn:E2; cbn; lia.
     + replace (Z.to_nat (start - (pos + 1))) with 0%nat by lia. replace (Z.to_nat (i - (pos + 1))) with hi by lia.
       rewrite slice_cons_0, countg_cons.
-      destruct (byte_eqb x g), (start <=? pos) eqn:E1, (pos <? i) eqn:E2; cbn; lia.
+      destruct (has x g), (start <=? pos) eqn:E1, (pos <? i) eqn:E2; cbn; lia.
     + rewrite slice_S0.
       replace (Z.to_nat (i - (pos + 1))) with 0%nat by lia. rewrite slice_empty.
-      destruct (byte_eqb x g), (start <=? pos) eqn:E1, (pos <? i) eqn:E2; cbn; lia.
+      destruct (has x g), (start <=? pos) eqn:E1, (pos <? i) eqn:E2; cbn; lia.
     + replace (Z.to_nat (start - (pos + 1))) with lo by lia. replace (Z.to_nat (i - (pos + 1))) with hi by lia.
       rewrite slice_cons_S.
-      destruct (byte_eqb x g), (start <=? pos) eqn:E1, (pos <? i) eqn:E2; cbn; lia.
+      destruct (has x g), (start <=? pos) eqn:E1, (pos <? i) eqn:E2; cbn; lia.
 Qed.
 
 Lemma nth_error_skipn_add {A} (s : list A) : forall st k, nth_error (skipn st s) k = nth_error s (st + k).
@@ -236,7 +239,7 @@ Proof. unfold countg. rewrite filter_app, app_length. lia. Qed.
 Lemma residues_some g t : residues (Some g) t = Z.of_nat (length t) - countg g t.
 Proof.
   unfold residues, countg, is_gap. induction t as [|x t IH]; [reflexivity|].
-  cbn [filter length]. destruct (byte_eqb x g); cbn [negb length]; lia.
+  cbn [filter length]. destruct (has x g); cbn [negb length]; lia.
 Qed.
 Lemma residues_none t : residues None t = Z.of_nat (length t).
 Proof. unfold residues, is_gap. induction t as [|x t IH]; [reflexivity|]. cbn [filter negb length] in *. lia. Qed.
@@ -540,11 +543,14 @@ Qed.
 (* ------------------------------------------------------------------ what a matched group looks like *)
 Lemma degap_app g a b : degap g (a ++ b) = degap g a ++ degap g b.
 Proof. unfold degap. apply filter_app. Qed.
-Lemma degap_repeat g k : degap g (repeat g k) = [].
-Proof. induction k; [reflexivity|]. cbn. now rewrite byte_eqb_refl. Qed.
-(* gap set, word without '.': removing the gap characters from the group gives the word *)
+Lemma degap_gaps g gs : all_in g gs = true -> degap g gs = [].
+Proof.
+  induction gs as [|x gs IH]; [reflexivity|]. unfold all_in. cbn [forallb]. intros H. apply andb_prop in H. destruct H as [Hx H].
+  cbn. rewrite Hx. cbn. apply IH. exact H.
+Qed.
+(* gap set, word without '.' and without gap characters: removing the gap characters from the group gives the word *)
 Lemma irel_degap g w : forall t,
-  forallb (fun c => negb (byte_eqb c g) && negb (byte_eqb c cdot)) w = true ->
+  forallb (fun c => negb (has c g) && negb (byte_eqb c cdot)) w = true ->
   irel (compile_word (Some g) w) t -> degap g t = w.
 Proof.
   induction w as [|c r IH]; intros t Hw H.
@@ -555,9 +561,9 @@ Proof.
     + cbn in H. unfold item_of in H. rewrite Hd in H. inversion H as [|? ? ? H1| |]; subst. inversion H1; subst.
       cbn. now rewrite Hg.
     + change (compile_word (Some g) (c :: c' :: r)) with (item_of c :: IStar g :: compile_word (Some g) (c' :: r)) in H.
-      unfold item_of at 1 in H. rewrite Hd in H. inversion H as [|? ? ? H1| |]; subst. inversion H1 as [| | |? k ? t' H2]; subst.
-      cbn [degap filter]. rewrite Hg. cbn [negb]. f_equal. fold (degap g (repeat g k ++ t')).
-      rewrite degap_app, degap_repeat. cbn [app]. apply IH; assumption.
+      unfold item_of at 1 in H. rewrite Hd in H. inversion H as [|? ? ? H1| |]; subst. inversion H1 as [| | |? gs ? t' Hgs H2]; subst.
+      cbn [degap filter]. rewrite Hg. cbn [negb]. f_equal. fold (degap g (gs ++ t')).
+      rewrite degap_app, (degap_gaps _ _ Hgs). cbn [app]. apply IH; assumption.
 Qed.
 (* gap None: the group has the length of the word and matches it character by character *)
 Lemma irel_nogap w : forall t, irel (compile_word None w) t -> Forall2 (fun c x => cmatch c x = true) w t.
@@ -573,9 +579,18 @@ Proof.
 Qed.
 
 (* ------------------------------------------------------------------ backward frames in forward coordinates *)
-(* table fact over the regenerated COMPLEMENT tables: complementing never creates or removes a '-' *)
-Lemma cmap_gap u c : byte_eqb (cmap u c) "-"%byte = byte_eqb c "-"%byte.
-Proof. destruct u; destruct c; vm_compute; reflexivity. Qed.
+(* table fact over the regenerated COMPLEMENT tables: complementing never creates or removes a gap symbol '-', '.', '~' *)
+Lemma cmap_gap_char u c g : gap_char_ok g = true -> byte_eqb (cmap u c) g = byte_eqb c g.
+Proof.
+  intros Hg. assert (E : g = "-"%byte \/ g = "."%byte \/ g = "~"%byte).
+  { destruct g; vm_compute in Hg; try discriminate; auto. }
+  destruct E as [->|[->| ->]]; destruct u; destruct c; vm_compute; reflexivity.
+Qed.
+Lemma cmap_gap u c gs : forallb gap_char_ok gs = true -> has (cmap u c) gs = has c gs.
+Proof.
+  induction gs as [|g gs IH]; [reflexivity|]. cbn [forallb]. intros H. apply andb_prop in H. destruct H as [Hg H].
+  unfold has in *. cbn [existsb]. rewrite IH by exact H. fold (byte_eqb (cmap u c) g). rewrite (cmap_gap_char u c g Hg). reflexivity.
+Qed.
 
 Lemma residues_rev_map gap (f : byte -> byte) t :
   (forall c, is_gap gap (f c) = is_gap gap c) -> residues gap (rev (map f t)) = residues gap t.
@@ -587,7 +602,8 @@ Lemma bwd_residues_forward gap s st b : wf_gap gap = true -> (st <= b)%nat -> (b
   residues gap (slice st b (rc s)) = residues gap (slice (length s - b) (length s - st) s).
 Proof.
   intros Hg H1 H2. rewrite slice_rc by lia. apply residues_rev_map.
-  intros c. destruct gap as [g|]; [|reflexivity]. cbn in Hg. apply byte_eqb_eq in Hg. subst g. cbn [is_gap]. apply cmap_gap.
+  intros c. destruct gap as [g|]; [|reflexivity]. cbn [is_gap]. apply cmap_gap.
+  destruct g as [|x r]; [discriminate|]. cbn [wf_gap] in Hg. apply andb_prop in Hg. tauto.
 Qed.
 
 (* ------------------------------------------------------------------ every reported frame, in terms of the output alone *)
